@@ -9,6 +9,12 @@ CLAIMED = {
  "C01": ("model_checking", "explicit-state BFS over API histories of the real code (fingerprint de-duplication), byte-array reference model",
          "Every history up to the stated depth over a collision-forcing alphabet (3 open files, 2 volumes on one device, 3 front ends, geometry grid) is executed on the real VolumeManager; every read, length, offset and EOF is compared with a byte-array model and every new state is read back completely.",
          MC_NOTE, "DESIGN.md section 5 C01"),
+ "C15": ("exploration", "exhaustive input enumeration: full product of valid layout parameters and single+pair boundary mutations, run through the real mount path",
+         "Every layout in the stated product is formatted by an independent formatter and must be mounted, listed and read back exactly by the crate; every boundary value of every MBR/BPB/FSInfo field (singly and in pairs) and every constant-byte sector must make open_raw_volume return without panic under overflow checks.",
+         "Trusted base: mkfs (independent formatter) and refat (its images are cross-checked by the self-test). Between grid points nothing is claimed.", "DESIGN.md section 5 C15"),
+ "C17": ("model_checking", "exhaustive enumeration of fragment/code-unit classes for the decoder and explicit-state exploration of all directory slot sequences up to a length bound for the listing state machine",
+         "LfnBuffer is fed every fragment combination over code-unit classes at fragment boundaries and every buffer size and compared with String::from_utf16_lossy; every slot sequence up to the bound over an alphabet of fragments/short entries/deleted/label slots is listed by the real iterate_dir_lfn and compared with the specification's LFN matching rule; arbitrary slot bytes must not panic.",
+         "Trusted base: refat's LFN matcher and std's UTF-16 decoder. Tolerated: deleted slots inside/after a run and checksum differences on non-first fragments (the property is silent).", "DESIGN.md section 5 C17"),
  "C18": ("exploration", "exhaustive input enumeration of the real codecs against independent reference codecs",
          "All 2^32 FAT date/time pairs, every second 1980..2107, entry field corners x all 256 attribute bytes x both FAT types (hook H1 and end-to-end), and all 8.3 name strings over a class alphabet up to the stated lengths are run through the real functions and compared with codecs written from the FAT specification.",
          "Trusted base: refat::{encode_ts,decode_ts}, mkfs::short_entry, names83::parse83. Between alphabet classes nothing is claimed.", "DESIGN.md section 5 C18"),
